@@ -40,6 +40,10 @@ def search(ctx):
     # the monitors of both streams are the oracle; a wider sample of histories
     from vlib import par
     par.run_parallel(ctx, 'harness.ctx_stream', 'run_chunk', [{'n_histories': 1500}] * 14)
+    if ctx.violations:
+        return
+    # engine level: the causal-publisher monitor on the real rows of generated programs under random schedules
+    par.run_parallel(ctx, 'harness.flow_stream', 'run_chunk', [{'n_programs': 120}] * 14)
 
 
 def replay(ctx, rep):
